@@ -267,6 +267,7 @@ Str gpaths_case(uint64_t idx, size_t nsegs) {
 Str gen_string(Rng& rng, size_t maxlen) {
     static const char hot[] = "%%%\r\n\r\n ++&==aAfF09gG~-._/\\:";
     size_t n = rng.below((uint32_t)maxlen + 1); Str s;
+    if (maxlen >= 20 && rng.chance(1, 4000)) { static const size_t H[] = {65535, 65536, 65537, 256, 255, 257, 32768}; n = maxlen = H[rng.below(7)]; }      // lengths around 8- and 16-bit limits, whatever the caller's usual maximum
     for (size_t i = 0; i < n; i++) {
         switch (rng.below(6)) {
         case 0: case 1: s.push_back(hot[rng.below(sizeof hot - 1)]); break;
